@@ -297,10 +297,12 @@ def explore(ctx):
     sets = [[], full]
     singles = [[f, KINDS[i % 7]] for i, f in enumerate(FQNS)]
     sets += [[d] for d in singles]
+    sets += [[d, [d[0], KINDS[(KINDS.index(d[1]) + 3) % 7]]] for d in singles]       # same fqn, two kinds
+    sets += [[d, [d[0], d[1]]] for d in singles[:12]]                                 # declared twice, same kind
+    sets += [[d, [d[0], KINDS[(KINDS.index(d[1]) + 1) % 7]], [d[0], KINDS[(KINDS.index(d[1]) + 2) % 7]]]
+             for d in singles[:12]]                                                   # three declarations, one fqn
     if pairs:
         sets += [[d1, d2] for d1, d2 in itertools.combinations(singles, 2)]
-        sets += [[d, [d[0], KINDS[(KINDS.index(d[1]) + 3) % 7]]] for d in singles]   # same fqn, two kinds
-        sets += [[d, [d[0], d[1]]] for d in singles[:9]]                              # declared twice
     jobs = [('decls', sets[i::32]) for i in range(32)]
     maxlen = 5 if ctx.thorough else 4
     jobs += [('strings', (i, 16, maxlen)) for i in range(16)]
